@@ -10,11 +10,12 @@ import jax.numpy as jnp
 import jax.random as jrand
 
 import genjax
-from genjax import ChoiceMap as C, Diff, Mask, Regenerate, Selection as S, Update, gen, normal
+from genjax import ChoiceMap as C, Diff, IndexRequest, Mask, Regenerate, Selection as S, Update, gen, normal
 from genjax._src.core.compiler.interpreters.incremental import NoChange, UnknownChange
 
 KEY = jrand.key(7)
 FAILS = []
+OB = ""          # the obligation being replayed (checks of recorded known findings run only for their own obligation)
 
 
 def close(a, b, tol=1e-4):
@@ -255,7 +256,29 @@ def scan_family():
             wf(new, "scan.edit_update")
             if not close(w, new.get_score() - tr.get_score()):
                 fail("scan.edit_update: weight != score change", w=w)
-    it = inner.map(lambda r: r).iterate(n=3) if False else None
+    # index edits (first, middle, last) on a kernel whose carry does not depend on the edited choice
+    @gen
+    def kadd(c, x):
+        z = normal(c, 1.0) @ "z"
+        return c + x, z
+    sa = kadd.scan()
+    args = (0.0, jnp.array([1., 10., 100., 1000.]))
+    tr = sa.simulate(KEY, args)
+    for i in (0, 1, 2, 3):
+        new, w, rd, bwd = IndexRequest(jnp.array(i), Update(C.kw(z=0.5))).edit(KEY, tr, Diff.no_change(args))
+        wf(new, f"scan.edit_index[idx={i} of 4]")
+        if not close(w, new.get_score() - tr.get_score()):
+            fail("scan.edit_index: weight != score change", idx=i, w=w)
+    # regenerate and its backward request
+    new, w, rd, bwd = Regenerate(S.all()).edit(KEY, tr, Diff.no_change(args))
+    wf(new, "scan.edit_regenerate")
+    if "C06.Scan.edit_regenerate" in OB:
+        try:
+            back = bwd.edit(KEY, new, Diff.no_change(args))[0]
+            if not close(back.get_score(), tr.get_score()):
+                fail("scan.edit_regenerate: applying the backward request does not restore the score")
+        except NotImplementedError:
+            fail("scan.edit_regenerate: the backward request (VectorRequest) is rejected by Scan.edit: NotImplementedError")
     step = gen(lambda x: normal(x, 1.0) @ "s")
     f = step.masked_iterate_final()
     tr = f.simulate(KEY, (0.0, jnp.array([True, False, True])))
@@ -441,7 +464,8 @@ FAMILIES = [
 
 def main():
     rec = json.load(open(sys.argv[1]))
-    ob = rec["obligation"]
+    global OB
+    ob = OB = rec["obligation"]
     fam = None
     for keys, fn in FAMILIES:
         if any(k in ob for k in keys):
